@@ -7,6 +7,7 @@ import TenpyModel.C11.ExtEnv
 import TenpyModel.C11.ExtStruct
 import TenpyModel.C11.ExtDecide
 import TenpyModel.C11.ExtTerms
+import TenpyModel.C11.ExtFlag
 open Lean TenpyModel TenpyModel.J
 open TenpyModel.Ops
 
@@ -371,6 +372,26 @@ def handleExt (j : Json) : Except String Json := do
     let mrArg ← parseMaxRange (fieldD hj "maxRange" Json.null)
     let ih := MPOX.isHermitian gramUnit GQ.conj hcUnit GQ.normSq epsSqDefault A mrArg
     out := out ++ [("is_hermitian", match ih with | some b => (b : Json) | none => Json.null)]
+  | .error _ => pure ()
+  -- __add__ with the attributes (explicit_plus_hc, max_range, bc)
+  match j.getObjVal? "add" with
+  | .ok aj =>
+    let fa ← getBool (fieldD (← field aj "A0") "finite" finite)
+    let fb ← getBool (fieldD (← field aj "B0") "finite" finite)
+    let A0 ← parseMPOX (← field aj "A0") fa
+    let B0 ← parseMPOX (← field aj "B0") fb
+    let rangeJ (r : MaxRange) : Json := match r with
+      | .fin r => Json.num (JsonNumber.fromInt r)
+      | .inf => Json.str "inf"
+      | .unknown => Json.null
+    match MPOX.add A0 B0 with
+    | some S =>
+      let okFull := if finite then
+          canonOp (S.full hcUnit GQ.conj) == canonOp (A0.full hcUnit GQ.conj ++ B0.full hcUnit GQ.conj)
+        else true
+      out := out ++ [("add", obj [("mpo", mpoJson S.m), ("plusHc", (S.plusHc : Json)), ("finite", (S.finite : Json)),
+                                  ("maxRange", rangeJ S.maxRange), ("full_ok", (okFull : Json))])]
+    | none => out := out ++ [("add", Json.null)]
   | .error _ => pure ()
   -- to_TermList
   match j.getObjVal? "termlist" with
